@@ -224,7 +224,11 @@ def filled_zone_layouts(ctx):
     zones = {"plain": P, "filled, no vacancy (vacate [])": FilledGrid.vacate(P, []),
              "filled, no vacancy (fill all)": FilledGrid.fill(P, [(i, j) for i in range(3) for j in range(2)]),
              "filled, one vacancy": FilledGrid.vacate(P, [(0, 0)]), "filled, one vacancy (built by fill)": FilledGrid.fill(P, [(i, j) for i in range(3) for j in range(2) if (i, j) != (0, 0)]),
-             "filled, other vacancy": FilledGrid.vacate(P, [(1, 1)]), "view of the plain grid": P[0:3, 0:2]}
+             "filled, other vacancy": FilledGrid.vacate(P, [(1, 1)]), "view of the plain grid": P[0:3, 0:2],
+             # the same two vacancies listed in either order (their tuple hashes collide in a small set table), and three
+             "filled, two vacancies": FilledGrid.vacate(P, [(0, 1), (1, 0)]), "filled, two vacancies (other order)": FilledGrid.vacate(P, [(1, 0), (0, 1)]),
+             "filled, three vacancies": FilledGrid.vacate(FilledGrid.vacate(P, [(2, 1)]), [(0, 0), (1, 1)]),
+             "filled, three vacancies (other order)": FilledGrid.vacate(P, [(1, 1), (0, 0), (2, 1)])}
     n = 0
     for (na, A), (nb, B) in itertools.product(zones.items(), repeat=2):
         ctx.evaluations += 1
@@ -262,6 +266,32 @@ def filled_zone_layouts(ctx):
             oracle_layout(ctx, L2, None, f"filled-zone layout ({na} / {nb})")
             ctx.nt(("filled-zone-layout", na, nb))
     ctx.count("pairs of plain / filled zones as layouts", n)
+    # a filled zone whose extent has been read (a bounding box was asked for), THEN transformed: the transformed grid is a zone of another
+    # layout whose box must be the box of the transformed sites - and equal to the box of an equal layout built from scratch
+    vac = [(1, 0)]
+    for tname, tf in (("scale(10, 5)", lambda g: g.scale(10.0, 5.0)), ("shift(3, -2)", lambda g: g.shift(3.0, -2.0)), ("repeat(2, 1, 30, 1)", lambda g: g.repeat(2, 1, 30.0, 1.0)),
+                      ("scale then shift", lambda g: g.scale(2.0, 2.0).shift(1.0, 1.0)), ("view [0:2, :]", lambda g: g[0:2, :])):
+        F = FilledGrid.vacate(P, vac)
+        first = Layout({"a": F}, {"a"}, set(), set())
+        first.bounding_box(), F.width, F.height, list(F.x_positions), list(F.y_positions), list(F.positions)
+        G = tf(F)
+        fresh = tf(FilledGrid.vacate(Grid.from_positions([0.0, 2.0, 4.5], [0.0, 3.0]), vac))
+        plain = tf(Grid.from_positions([0.0, 2.0, 4.5], [0.0, 3.0]))
+        want = (min(plain.x_positions), max(plain.x_positions), min(plain.y_positions), max(plain.y_positions))
+        ctx.evaluations += 1
+        rep = {"filled_zone_layouts": ["filled zone read, then " + tname, ""], "history": ["bounding_box of a layout with the filled zone", tname, "bounding_box of a layout with the result"]}
+        try:
+            got = tuple(Layout({"a": G}, {"a"}, set(), set()).bounding_box())
+            got_fresh = tuple(Layout({"a": fresh}, {"a"}, set(), set()).bounding_box())
+        except Exception as e:
+            ctx.fail({"kind": "bounding-box", "zones": "filled", "with_view": False, "case": tname}, rep, f"bounding_box of a layout with a transformed filled zone raises {type(e).__name__}")
+            continue
+        if got != want or got_fresh != want or not (G == fresh) or hash(G) != hash(fresh):
+            ctx.fail({"kind": "bounding-box", "zones": "filled", "with_view": False, "case": tname}, rep,
+                     f"a filled zone whose extent had been read, then {tname}: bounding_box() = {got} (an equal zone built from scratch: {got_fresh}); the tight box is {want}" +
+                     ("" if G == fresh and hash(G) == hash(fresh) else "; the two zones do not compare / hash equal"))
+        else:
+            ctx.nt(("filled-zone-history", tname))
 
 
 def run(ctx):
